@@ -79,7 +79,7 @@ func (a *Real32) ConvertScalar(t ScalarType) Scalar {
   default:
     r := NullScalar(t)
     r.Set(a)
-    return a
+    return r
   }
 }
 func (a *Real32) ConvertMagicScalar(t ScalarType) MagicScalar {
@@ -87,9 +87,9 @@ func (a *Real32) ConvertMagicScalar(t ScalarType) MagicScalar {
   case Real32Type:
     return a
   default:
-    r := NullScalar(t)
+    r := NullScalar(t).(MagicScalar)
     r.Set(a)
-    return a
+    return r
   }
 }
 func (a *Real32) ConvertConstScalar(t ScalarType) ConstScalar {
